@@ -7,19 +7,22 @@ def getNat (j : J) (k : String) : Except String Nat := do
   let n ← j.getInt k
   if n < 0 then throw s!"negative {k}" else pure n.toNat
 
-def toOp (j : J) : Except String Op := do
+/-- `none` = a harness-only action the registry must not notice (the caller mutating a set object it
+    once passed to `subscribe_only_to`) -/
+def toOp (j : J) : Except String (Option Op) := do
   match ← j.getStr "op" with
-  | "register" => pure (.register (← getNat j "r") (← getNat j "cap"))
-  | "subscribe" => pure (.subscribe (← getNat j "s") (← getNat j "r"))
+  | "mutate" => pure none
+  | "register" => pure (some (.register (← getNat j "r") (← getNat j "cap")))
+  | "subscribe" => pure (some (.subscribe (← getNat j "s") (← getNat j "r")))
   | "only" =>
     let rs ← (← j.getArr "rs").mapM fun x => match x with
       | .num n => if n < 0 then throw "negative resource" else pure n.toNat
       | _ => throw "bad resource"
-    pure (.subscribeOnlyTo (← getNat j "s") rs)
-  | "unsubscribe" => pure (.unsubscribe (← getNat j "s") (← getNat j "r"))
-  | "notify" => pure (.notify (← getNat j "r") (← getNat j "t"))
-  | "kill" => pure (.kill (← getNat j "r"))
-  | "deregister" => pure (.deregister (← getNat j "r") (← getNat j "t"))
+    pure (some (.subscribeOnlyTo (← getNat j "s") rs))
+  | "unsubscribe" => pure (some (.unsubscribe (← getNat j "s") (← getNat j "r")))
+  | "notify" => pure (some (.notify (← getNat j "r") (← getNat j "t")))
+  | "kill" => pure (some (.kill (← getNat j "r")))
+  | "deregister" => pure (some (.deregister (← getNat j "r") (← getNat j "t")))
   | o => throw s!"bad op {o}"
 
 def sorted (l : List Nat) : List Nat := (l.toArray.qsort (· < ·)).toList
@@ -52,9 +55,10 @@ def ofState (n : Nat) (s : State) : J :=
         ("subscribers", .arr (rs.map fun r => ofNats (s.subscribers r))),
         ("queues", .arr (rs.map fun r => match s.queues.find? r with | some q => ofQueue q | none => .null))]
 
-def runAll (caught : QErr → Bool) (n : Nat) : State → List Op → List J
+def runAll (caught : QErr → Bool) (n : Nat) : State → List (Option Op) → List J
   | _, [] => []
-  | s, op :: ops =>
+  | s, none :: ops => .obj [("out", ofOut .ok), ("state", ofState n s)] :: runAll caught n s ops
+  | s, some op :: ops =>
     let (s', out) := stepWith caught s op
     .obj [("out", ofOut out), ("state", ofState n s')] :: runAll caught n s' ops
 
